@@ -55,6 +55,9 @@ def gen_list_field(rng, kind, name):
     text = text.rstrip(" \t")
     if text.endswith("\n") or text.endswith("\n ") or text.split("\n")[-1].strip(" \t") == "":
         text = text.rstrip(" \t\n")
+    if rng.random() < 0.2 and not text.endswith(","):
+        # blanks or a tab between the last value and the end of the line (no trailing separator): they belong to no value
+        text += rng.choice([" ", "  ", "\t", " \t"])
     return text + "\n", vals
 
 
